@@ -317,8 +317,16 @@ int __wrap_socket(int domain, int type, int protocol)
 
 int __wrap_setsockopt(int fd, int level, int optname, const void *optval, socklen_t optlen)
 {
-	(void)level; (void)optname; (void)optval; (void)optlen;
+	(void)optlen;
 	if (!use(fd, "setsockopt")) { errno = EBADF; return -1; }
+	if (level == SOL_SOCKET && optname == SO_LINGER && optval != NULL) {
+		const struct linger *lg = optval;
+		if (lg->l_onoff && lg->l_linger > 0) {
+			/* with this option close() sleeps (also on a non-blocking socket) while unsent data is queued for a
+			 * peer that does not read: the single-threaded daemon would stand still for every other connection */
+			out("FAULT lingering close requested on %s (%d s): close() blocks on a slow reader", hname(fd), lg->l_linger);
+		}
+	}
 	return 0;
 }
 
